@@ -59,6 +59,13 @@ std::string projectShape(NifFile& nif, NiShape* shape, ContentIds& ids) {
 	JObj lens;
 	lens.add("verts", verts.size()).add("uvs", uvs.size()).add("normals", norms ? norms->size() : 0).add("tangents", tang.size());
 	lens.add("bitangents", bitang.size()).add("colors", cols.size()).add("eye", eye.size());
+	{
+		// length of the longest further UV set (0 if there is none)
+		size_t more = 0;
+		if (auto gd = shape->GetGeomData())
+			for (size_t us = 1; us < gd->uvSets.size(); us++) more = std::max(more, gd->uvSets[us].size());
+		lens.add("uvsMore", more);
+	}
 	o.raw("lens", lens.done());
 	// per-attribute content ids (C13): what each getter returns, vertex by vertex
 	{
@@ -109,6 +116,10 @@ std::string projectShape(NifFile& nif, NiShape* shape, ContentIds& ids) {
 		if (i < bitang.size()) app(&bitang[i], sizeof(Vector3));
 		if (i < cols.size()) app(&cols[i], sizeof(Color4));
 		if (i < eye.size()) app(&eye[i], sizeof(float));
+		// further UV sets of legacy geometry data (the accessors only show the first one)
+		if (auto gd = shape->GetGeomData())
+			for (size_t us = 1; us < gd->uvSets.size(); us++)
+				if (i < gd->uvSets[us].size()) app(&gd->uvSets[us][i], sizeof(Vector2));
 		vattr.add(ids.of(d));
 	}
 	o.raw("vattr", vattr.done());
